@@ -422,7 +422,7 @@ class C20(Machine):
                             bad = "rows"
                         if bad:
                             outcome = "bad_matrix"
-                            rec.violation("DIMENSIONS_CONTRADICTED", dict(base, what=bad),
+                            rec.violation("DIMENSIONS_CONTRADICTED", dict(base, what=bad, intact=bool(intact)),
                                           "document declares ntax=%s nchar=%s but the returned matrix has %d rows with lengths %s; fault=%s" % (
                                               ntax, nchar, nrows, lens, _short(step)))
                             break
